@@ -1,0 +1,33 @@
+//go:build verif
+
+// Contracts for the deductive verification harness in /verif (govc).
+// Comments only; compiled only with -tags verif and then contributes nothing.
+
+package keyformat
+
+//@ func NewFastPrefixFormatter(prefix, length) (f)
+//@   props C13
+//@   ensures [fields] f != nil && fresh(f) && f.prefix == prefix && f.length == length && len(f.prefixSlice) == 1 && at(f.prefixSlice, 0) == prefix
+
+// Key: one prefix byte followed by `length` bytes taken from bz.
+//@ func (*FastPrefixFormatter).Key(f, bz) (key)
+//@   props C13
+//@   requires f != nil && 0 <= f.length && f.length <= 1048576
+//@   ensures [layout] key != nil && fresh(key) && len(key) == 1 + f.length && at(key, 0) == f.prefix
+//@   ensures [payload] forall(i, imp(0 <= i && i < len(bz) && i < f.length, at(key, 1 + i) == at(bz, i)))
+
+//@ func (*FastPrefixFormatter).KeyInt64(f, bz) (key)
+//@   props C13
+//@   requires f != nil && 8 <= f.length && f.length <= 1048576
+//@   ensures [layout] key != nil && fresh(key) && len(key) == 1 + f.length && at(key, 0) == f.prefix
+//@   ensures [payload] be64(row(key), key.off + 1) == ite(bz >= 0, bz, bz + 18446744073709551616)
+
+//@ func (*FastPrefixFormatter).Prefix(f) (p)
+//@   props C13
+//@   requires f != nil
+//@   ensures p == f.prefixSlice
+
+//@ func (*FastPrefixFormatter).Length(f) (n)
+//@   props C13
+//@   requires f != nil && 0 <= f.length && f.length <= 1048576
+//@   ensures n == 1 + f.length
